@@ -313,9 +313,9 @@ type c13EP struct {
 	fixedGrp  *ob.DialerGroup
 	targets   []string
 	targets6  []string
-	prefFam   []int              // per key: family the routing side selects first (4 / 6)
-	famDown   map[[2]int]bool    // (dialer, family) learnt unusable from a dial error
-	optScript map[int][]c13Opt   // per key scripted selections, consumed in order; then the chooser above applies
+	prefFam   []int            // per key: family the routing side selects first (4 / 6)
+	famDown   map[[2]int]bool  // (dialer, family) learnt unusable from a dial error
+	optScript map[int][]c13Opt // per key scripted selections, consumed in order; then the chooser above applies
 	gets      atomic.Int32
 
 	dialsStarted  atomic.Int32
@@ -1502,6 +1502,12 @@ func c13EndpointStaleCreate(m *vk.Monitor) {
 		k := rng.IntN(4) // not the fixed-policy key: it ignores dialer health by design
 		traffic := rng.IntN(3) == 0
 		later := 1 + rng.IntN(3)
+		// which family the routing side selects (and the health change names), and whether the
+		// first later lookup is the read-only one; derived from the round number so that the
+		// random stream of the older rounds is unchanged
+		fam := 4 + 2*(round%2)
+		getFirst := (round/2)%2 == 1
+		h.prefFam[k] = fam
 		var parked atomic.Int32
 		release := make(chan struct{})
 		var armed atomic.Bool
@@ -1532,12 +1538,31 @@ func c13EndpointStaleCreate(m *vk.Monitor) {
 			m.Inconclusive("stale-create round %d: creator never reached uep2", round)
 			return
 		}
-		h.invalidate(h.keyDialer[k])
+		h.invalidateFam(h.keyDialer[k], fam)
 		close(release)
 		<-done
 		VerifYieldHook.Store(nil)
 		var vs []c13Verdict
 		if first.Err == "" && first.conn != nil {
+			if first.conn.Family == 6 {
+				m.Count("b_stalecreate_rounds_over_ipv6", 1)
+			}
+			if getFirst {
+				// a read-only lookup hands an endpoint out just like GetOrCreate does
+				b := h.get(k, "later")
+				ft := first.conn.firstTraffic.Load()
+				switch {
+				case b.conn == first.conn && (ft == 0 || ft > b.S0):
+					vs = append(vs, c13Verdict{"endpoint/stale-generation-handed-out",
+						fmt.Sprintf("conn %d sampled its dialer generation before the invalidation (stamps %d..%d), was published after it, carried no traffic, and was handed out again by the read-only lookup %d", first.conn.ID, h.invs[0].S0, h.invs[0].S1, b.Seq),
+						map[string]any{"call": b, "endpoint": c13ConnInfo(first.conn)}})
+					later = 0
+				case b.conn == first.conn:
+					m.Count("b_stalecreate_get_returned_survivor_with_traffic", 1)
+				default:
+					m.Count("b_stalecreate_get_refused_stale_endpoint", 1)
+				}
+			}
 			for i := 0; i < later; i++ {
 				b := h.goc(k, 0, "later")
 				ft := first.conn.firstTraffic.Load()
@@ -1563,8 +1588,8 @@ func c13EndpointStaleCreate(m *vk.Monitor) {
 		vs = append(vs, fin...)
 		m.Eval(len(h.calls))
 		m.Count("b_stalecreate_rounds", 1)
-		m.Distinct(fmt.Sprintf("b-stalecreate|key%d|traffic%v|later%d", k, traffic, later))
-		c13Report(m, reported, "stalecreate/", c13Dedup(vs), h, map[string]any{"round": round, "kind": "invalidate-while-creating", "traffic_after_create": traffic})
+		m.Distinct(fmt.Sprintf("b-stalecreate|key%d|traffic%v|later%d|udp%d|get%v", k, traffic, later, fam, getFirst))
+		c13Report(m, reported, "stalecreate/", c13Dedup(vs), h, map[string]any{"round": round, "kind": "invalidate-while-creating", "traffic_after_create": traffic, "family": fam, "read_only_lookup_first": getFirst})
 		if len(fin) > 0 {
 			break
 		}
@@ -1698,7 +1723,7 @@ func c13GenerationsSequential(m *vk.Monitor) {
 		nkeys := 2 + rng.IntN(3)
 		dsts := []netip.AddrPort{netip.MustParseAddrPort("198.51.100.9:53"), netip.MustParseAddrPort("198.51.100.10:443")}
 		model := map[*UdpEndpoint]*c13ModelEP{}
-		evicted := map[bpfTuplesKey]bool{} // entries the kernel side removed on its own: absence is not dae's doing
+		evicted := map[bpfTuplesKey]bool{}     // entries the kernel side removed on its own: absence is not dae's doing
 		undeletable := map[bpfTuplesKey]bool{} // entries whose delete the kernel refused (injected fault): presence is not dae's doing
 		var closedMap *ebpf.Map
 		var hist []string
